@@ -83,6 +83,8 @@ def fworld (blk : String → Nat → Nat → Nat) (st : Strm) (scale : Nat) : Wo
   unstar _ := throw "TypeError"
   format _ := throw "TypeError"
   concat _ := throw "TypeError"
+  dict _ := throw "TypeError"
+  whileLoop _ _ _ := throw "Unsupported"
   other _ := throw "Unsupported"
   throw cls := throw cls
   rethrow := throw "reraise"
